@@ -8,7 +8,8 @@ Import ListNotations.
 Definition wrr_slot (x : Z * Z) : Z * nat := (fst x, Z.to_nat (snd x)).
 
 Definition wrr_cfg (r : Q) (ws : list (Z * Z)) : mq_cfg :=
-  {| rate := r; pass := map wrr_slot ws; by_count := true; brk := false |}.
+  {| rate := r; pass := map wrr_slot ws; by_count := true; brk := false;
+     cls := fun f => f; sflows := nodup Z.eq_dec (map fst ws) |}.
 
 Definition wrr_act (r : Q) (ws : list (Z * Z)) := mq_act (wrr_cfg r ws).
 Definition wrr_run (r : Q) (ws : list (Z * Z)) (acts : list saction) := mq_run (wrr_cfg r ws) (mq0 (wrr_cfg r ws)) acts.
